@@ -88,7 +88,7 @@ def run():
     uni, ust = common.tlc_eval_json("Dump_Universe", cfg="Dump_Universe_Q" if QUICK else "Dump_Universe_T")
     chk.add_tlc(ust)
     from harness.props.c01 import decorate_sites
-    pick = rng.sample(uni, 500 if QUICK else 20000)
+    pick = rng.sample(uni, min(len(uni), 500 if QUICK else 20000))
     for a in pick:
         a = decorate_sites(a, rng)
         a["muts"] = [m for m in a["muts"]]
